@@ -296,4 +296,43 @@ theorem mut_fetch_complete (hashOf : Content → Nat) (es : List MutEv) (s : Mut
       | trunc v k => simp [unpacks] at hc
     · rw [if_neg hc] at hf; cases hf
 
+
+theorem mutRun_append : ∀ (a b : List MutEv) (s : MutState),
+    mutRun s (a ++ b) = (mutRun s a).bind fun s' => mutRun s' b := by
+  intro a
+  induction a with
+  | nil => intro b s; rfl
+  | cons e a ih =>
+    intro b s
+    simp only [List.cons_append, mutRun]
+    cases mutStep s e with
+    | none => rfl
+    | some s' => exact ih b s'
+
+/-- a Store that ran to its end — whatever happened before on the entry (earlier stores, interrupted ones,
+    a removed archive), from ANY state — is what the next Fetch installs: the archive is complete and the side
+    file holds its hash -/
+theorem mut_store_then_fetch (hashOf : Content → Nat) (pre : List MutEv) (s s' : MutState) (v : Nat)
+    (h : mutRun s (pre ++ [.finishCopy v, .writeHash]) = some s') :
+    mutFetch hashOf s' = some (.complete v) := by
+  rw [mutRun_append] at h
+  cases h1 : mutRun s pre with
+  | none => rw [h1] at h; cases h
+  | some s1 =>
+    rw [h1] at h
+    simp only [Option.bind, mutRun, mutStep] at h
+    by_cases hv : v ∈ s1.stored
+    · simp only [hv, if_true, Option.some.injEq] at h
+      subst h
+      simp [mutFetch, expectedHash, unpacks]
+    · simp [hv] at h
+
+/-- … and an interrupted Store (the copy stopped after any prefix, the side file not rewritten) never lets a
+    Fetch succeed with anything but a complete archive — it fails instead, provided hashes tell a truncated
+    archive from the complete one the side file speaks of -/
+theorem mut_interrupted_store_fetch_fails (hashOf : Content → Nat) (s : MutState) (v k : Nat) (h0 : Content)
+    (hside : s.hashFile = some h0) (hzip : s.zip = some (.trunc v k)) :
+    mutFetch hashOf s = none := by
+  simp [mutFetch, hzip, unpacks]
+
 end GoUtils.Cache
